@@ -408,7 +408,7 @@ def load_dot(path, evvar='ev'):
                 label = line[q:end]
                 m2 = evre.search(label)
                 if m2:
-                    txt = m2.group(1).replace('\\"', '"')
+                    txt = m2.group(1).replace('\\n', ' ').replace('\\"', '"')     # TLC wraps long records over several lines
                     g.ev[nid] = tlaval.parse(txt)
                 if 'style = filled' in line[end:] and 'tooltip' not in line[end:end + 20]:
                     g.init.append(nid)
